@@ -11,6 +11,18 @@
     agree (bit-exact on integer data, 1e-12 otherwise); concurrent shared copies / indexedSubset;
     thorough tier: ThreadSanitizer build (clang + libomp; reports filtered to shark::/remora::/harness
     frames), schedule(runtime) build under OMP_SCHEDULE=dynamic/guided/static,1.
+ 4. work split by thread number (translator, every run): tools/translate_omp.py (split_sites_of / coq_split) reads the integer
+    expressions that give every worker its index range (ErrorFunctionImpl::eval/evalDerivative,
+    NegativeLogLikelihood::evalDerivative) resp. every (pattern, thread) its cells of the heap array
+    (SimpleNearestNeighbors::getNeighbors) from the clang AST, renders them as Gallina into coq/gen/C20SplitDefs.v and
+    generates the obligations of coq/gen/C20Split.v: `s<k>_tiles` (the ranges tile [0, numberOfBatches)) /
+    `s<k>_slices` (slices tile the array, merge range = union), `s<k>_safe` (no division by zero, no unsigned
+    underflow), `s<k>_nowrap` (all intermediate values bounded), proved by the generic script split_solve.  A failed
+    obligation is refuted on a concrete input found by evaluating the expressions with C semantics, and the harness is
+    run on that input (which batches does each worker really evaluate).
+ 5. correspondence: the extracted models (generated sites, reference-count machine of C20RcModel) against the real code
+    (harness `cases` mode): batches evaluated per worker, cells written per thread, use_count/expiry of the batches of real
+    Data objects under copy / indexedSubset / destruction, sequentially and from several threads.
  A failing region obligation triggers a search with these monitors for a concrete differing result /
  crash / TSan report; otherwise `no-failing-input-found` naming the region.
 """
@@ -211,8 +223,213 @@ def tsan_reports(err):
         if "WARNING: ThreadSanitizer" not in r:
             continue
         if re.search(r"shark::|remora::|c20_parallel\.cpp|mode_\w+", r):
+            # both racing accesses performed by the OpenMP runtime itself (a libc interceptor called from libomp in both access stacks:
+            # its thread start-up handshake), merely called from a parallel region of the library: not a report about Shark
+            secs = [s for s in re.split(r"\n\s*\n", r) if re.search(r"^\s*#0 ", s, re.M)]
+            acc = [s for s in secs if re.search(r"(read|write|Read|Write) of size", s)]
+            inside = lambda s: bool(re.search(r"^\s*#1 .*libomp\.so", s, re.M)) and bool(re.search(r"^\s*#0 \S+ <null> ", s, re.M))
+            if len(acc) >= 2 and all(inside(s) for s in acc[:2]):
+                continue
             keep.append(r.strip()[:3000])
     return keep, sum(1 for r in reps if "WARNING: ThreadSanitizer" in r)
+
+
+
+# ------------------------------------------------------------------------------------------------ work split sites
+
+ROUTE_OF_FUNCTION = {"ErrorFunctionImpl::eval": "ef.eval", "ErrorFunctionImpl::evalDerivative": "ef.evalDerivative",
+                     "NegativeLogLikelihood::evalDerivative": "nll.evalDerivative", "SimpleNearestNeighbors::getNeighbors": "snn"}
+SPLIT_HEADER = ["From Coq Require Import List Arith Bool PeanoNat Lia ZArith.", "From SharkV Require Import C20Model C20SplitModel C20SplitProofs.",
+                "From SharkGen Require Import C20SplitDefs.", ""]
+
+
+def coqc_text(name, text, tmpd, timeout=600):
+    """compile a scratch .v file (outside coq/gen) against theories + gen"""
+    fn = os.path.join(tmpd, name + ".v")
+    open(fn, "w").write(text)
+    return sh(["coqc", "-Q", os.path.join(COQ, "theories"), "SharkV", "-Q", os.path.join(COQ, "gen"), "SharkGen", "-o", os.path.join(tmpd, name + ".vo"), fn],
+              cwd=tmpd, timeout=timeout)
+
+
+def split_counterexample(site, kind):
+    """smallest input on which the expressions of the CURRENT source, evaluated with C semantics, violate the obligation"""
+    sf = site["sf"]
+    if site["kind"] == "range":
+        for tot in range(2, 70):
+            for nb in range(1, tot):
+                nt = tot - nb
+                if nt > 20:
+                    continue
+                env = {site["total"][1]: nb, T.NUM_THREADS_KEY: nt}
+                flags = []
+                try:
+                    n = T.eval_tree(sf, site["bound"], env, flags)
+                    rs = []
+                    for ti in range(min(n, 200)):
+                        e2 = dict(env); e2[site["pv"]] = ti
+                        rs.append((T.eval_tree(sf, site["lo"], e2, flags), T.eval_tree(sf, site["hi"], e2, flags)))
+                except T.Trap as ex:
+                    return {"inputs": env, "why": str(ex)}
+                except KeyError:
+                    return None
+                if kind in ("safe", "nowrap"):
+                    if flags:
+                        return {"inputs": env, "why": flags[0], "ranges": rs}
+                    continue
+                ok = n >= 1 and rs[0][0] == 0 and rs[-1][1] == nb and all(a <= b for a, b in rs) and all(rs[i][1] == rs[i + 1][0] for i in range(len(rs) - 1))
+                if not ok:
+                    return {"inputs": env, "why": "ranges %s of %d workers do not tile [0,%d)" % (rs[:8], n, nb), "ranges": rs}
+        return None
+    ins = [k for k in sf.inputs]
+    for k in range(0, 4):
+        for P in range(0, 4):
+            for Tn in range(1, 5):
+                env = {}
+                for key in ins:
+                    env[key] = Tn if key == T.NUM_THREADS_KEY else (k if key == "k" else P)
+                flags = []
+                try:
+                    cap = T.eval_tree(sf, site["cap"], env, flags)
+                    Po = T.eval_tree(sf, site["outer_bound"], env, flags)
+                    cells = {}
+                    bad = None
+                    for p in range(Po):
+                        e2 = dict(env); e2[site["merge_pv"]] = p
+                        mlo, mhi = T.eval_tree(sf, ("var", "", site["m_lo"]), e2, flags), T.eval_tree(sf, ("var", "", site["m_hi"]), e2, flags)
+                        prev = mlo
+                        for tt in range(Tn):
+                            e3 = dict(env); e3[site["outer"]] = p; e3[T.THREAD_NUM_IDX] = tt
+                            lo, hi = T.eval_tree(sf, ("var", "", site["s_lo"]), e3, flags), T.eval_tree(sf, ("var", "", site["s_hi"]), e3, flags)
+                            if lo != prev or hi < lo or hi > cap:
+                                bad = "slice (p=%d,t=%d) = [%d,%d) does not continue at %d inside [0,%d)" % (p, tt, lo, hi, prev, cap)
+                            prev = hi
+                        if prev != mhi and not bad:
+                            bad = "slices of p=%d end at %d, merge range is [%d,%d)" % (p, prev, mlo, mhi)
+                        if p == 0 and mlo != 0 and not bad:
+                            bad = "merge range of p=0 starts at %d" % mlo
+                        if p == Po - 1 and mhi != cap and not bad:
+                            bad = "merge range of the last p ends at %d, array has %d cells" % (mhi, cap)
+                    if Po == 0 and cap != 0:
+                        bad = "no patterns but %d cells" % cap
+                except T.Trap as ex:
+                    return {"inputs": env, "why": str(ex)}
+                except KeyError:
+                    return None
+                if kind in ("safe", "nowrap"):
+                    if flags:
+                        return {"inputs": env, "why": flags[0]}
+                    continue
+                if bad:
+                    return {"inputs": env, "why": bad, "k": k, "P": P, "T": Tn}
+    return None
+
+
+def site_x(meta, values):
+    """input vector of a site in the order of the generated file; values: dict key -> int; unknown inputs -> None"""
+    x = []
+    for k in meta["inputs"]:
+        if k not in values:
+            return None
+        x.append(values[k])
+    return x
+
+
+def split_line(meta, nb, nt):
+    route = ROUTE_OF_FUNCTION.get(meta["function"].split("<")[0], "none")
+    x = site_x(meta, {meta["total_input"]: nb, T.NUM_THREADS_KEY: nt})
+    return None if x is None else "split %d %s %d %d | %s" % (meta["index"], route, nb, nt, " ".join(map(str, x)))
+
+
+def slice_line(meta, k, P, Tn):
+    route = ROUTE_OF_FUNCTION.get(meta["function"].split("<")[0], "none")
+    vals = {T.NUM_THREADS_KEY: Tn, "k": k, "batchSize(patterns)": P}
+    x = site_x(meta, vals)
+    return None if x is None else "slice %d %s %d %d %d | %s" % (meta["index"], route, k, P, Tn, " ".join(map(str, x)))
+
+
+def cases_monitor(case, out):
+    """the property's predicate evaluated on the implementation's output alone"""
+    l = case[0]; o = out[0] if out else ""
+    tk = l.split("|")[0].split()
+    msgs = []
+    if o in ("BADLINE", "NOROUTE", "BADBATCHES") or o.startswith("EXC"):
+        return ["harness: %s on `%s`" % (o, l)]
+    if tk[0] == "split":
+        nb = int(tk[3])
+        try:
+            seen = [int(x) for part in o.split("|") if part for x in part.split(",")]
+        except ValueError:
+            return ["unreadable output `%s`" % o[:100]]
+        missing = sorted(set(range(nb)) - set(seen)); dup = sorted(set(x for x in seen if seen.count(x) > 1)); extra = sorted(set(seen) - set(range(nb)))
+        if missing or dup or extra:
+            msgs.append("%s with %s batches on %s threads: batches never evaluated %s, evaluated more than once %s, out of range %s (per worker: %s)" % (
+                tk[2], tk[3], tk[4], missing[:8], dup[:8], extra[:8], o[:120]))
+    elif tk[0] == "slice":
+        k, P, Tn = int(tk[3]), int(tk[4]), int(tk[5])
+        per = {}
+        for part in o.split():
+            t_, cs = part.split(":")
+            per[t_] = set(int(c) for c in cs.split(",") if c)
+        names = sorted(per)
+        for i, a in enumerate(names):
+            if any(c < 0 or c >= k * P * Tn for c in per[a]):
+                msgs.append("getNeighbors k=%d patterns=%d threads=%d: thread %s writes cells outside the %d allocated: %s" % (k, P, Tn, a, k * P * Tn, sorted(c for c in per[a] if c >= k * P * Tn)[:6]))
+            for b in names[i + 1:]:
+                if per[a] & per[b]:
+                    msgs.append("getNeighbors k=%d patterns=%d threads=%d: threads %s and %s both write cells %s in the same parallel region" % (k, P, Tn, a, b, sorted(per[a] & per[b])[:6]))
+    elif tk[0] in ("rcseq", "rcpar"):
+        if o == "DISABLED":
+            return []
+        obs = [[tuple(int(v) for v in c.split("/")) for c in ob.strip().split(",") if c] for ob in o.split(";")]
+        for ob in obs:
+            for b, (c, f) in enumerate(ob):
+                if (c == 0) != (f == 1):
+                    msgs.append("batch %d: use_count %d but %s" % (b, c, "already freed" if f else "not freed"))
+        if tk[0] == "rcpar" and obs and any(f != 1 for _, f in obs[-1]):
+            msgs.append("a batch is still allocated after every dataset was destroyed: %s" % (obs[-1],))
+    return msgs[:3]
+
+
+def gen_rc_cases(rng, n_seq, n_par):
+    cases = []
+    for _ in range(n_seq):
+        B = rng.randint(1, 5); alive = {0: B}; nh = 1; ops = []
+        sizes = {0: B}
+        for _ in range(rng.randint(3, 14)):
+            live = sorted(alive)
+            r = rng.random()
+            t_ = rng.randint(0, 3)
+            if live and r < 0.35:
+                h = rng.choice(live); ops.append("c:%d:%d" % (t_, h)); alive[nh] = alive[h]; nh += 1
+            elif live and r < 0.6:
+                h = rng.choice(live); idx = [rng.randrange(alive[h]) for _ in range(rng.randint(0, 3))] if alive[h] else []
+                ops.append("s:%d:%d:%s" % (t_, h, ",".join(map(str, idx)))); alive[nh] = len(idx); nh += 1
+            elif live:
+                h = rng.choice(live); ops.append("r:%d:%d" % (t_, h)); del alive[h]
+        if rng.random() < 0.7:
+            for h in sorted(alive, reverse=rng.random() < 0.5):
+                ops.append("r:0:%d" % h)
+        cases.append(["rcseq %d | %s" % (B, " ".join(ops))])
+    for i in range(n_par):
+        B = rng.randint(1, 4); Tn = rng.choice([2, 3, 4, 7, 16])
+        scripts = []
+        for t_ in range(Tn):
+            own = {}; nh = 0; ops = []
+            for _ in range(rng.randint(2, 10)):
+                src = rng.choice([0] + sorted(own)); nb_src = B if src == 0 else own[src]
+                r = rng.random()
+                if r < 0.4:
+                    nh += 1; own[nh] = nb_src; ops.append("c:%d" % src)
+                elif r < 0.7:
+                    idx = [rng.randrange(nb_src) for _ in range(rng.randint(0, 3))] if nb_src else []
+                    nh += 1; own[nh] = len(idx); ops.append("s:%d:%s" % (src, ",".join(map(str, idx))))
+                elif own:
+                    h = rng.choice(sorted(own)); del own[h]; ops.append("r:%d" % h)
+            for h in sorted(own):
+                ops.append(("k:%d" if rng.random() < 0.3 else "r:%d") % h)
+            scripts.append(" ".join(ops))
+        cases.append(["rcpar %d %d %d | %s" % (B, Tn, rng.randrange(1 << 20), " ; ".join(scripts))])
+    return cases
 
 
 def main():
@@ -223,12 +440,17 @@ def main():
         "tools/translate_omp.py (Python + clang 14 JSON AST): that a region summary lists every access of the C++ loop body, with the right read/write/critical/index classification, is NOT proved; its rules and hand-kept tables are listed in this evidence (translator)",
         "assumption per SharedIndexed write: an index expression mentioning the loop variable addresses different cells in different iterations (expressions listed under index_assumed_injective)",
         "component contract: const methods of AbstractModel/AbstractKernelFunction/AbstractLoss/AbstractMetric with external State do not write shared state (violated by DropoutLayer: extra `_stochastic` obligations)",
-        "modelled not verified: C++/OpenMP memory model, libgomp/libomp, boost::shared_ptr atomic reference counts (runtime monitors only), accesses before the fork / after the join",
+        "modelled not verified: C++/OpenMP memory model, libgomp/libomp, accesses before the fork / after the join",
+        "work split: tools/translate_omp.py (split_sites_of: clang JSON AST -> expression trees -> Gallina) is trusted for reading the integer expressions; it is exercised on every run: the generated Gallina is extracted and compared with what the real code does (batches per worker, heap cells per thread). Hand-kept: which locals delimit the heap slices of SimpleNearestNeighbors (SLICE_SITES, in the evidence); the index space a range site must cover is the numberOfBatches() of the container indexed by the inner loop",
+        "work split arithmetic: size_t = nat under the generated obligations s<k>_safe (no division by 0, no unsigned underflow) and s<k>_nowrap (intermediate values <= nb+nt resp. (P+1)(nt+1)(k+1)); inputs assumed < 2^20 (they are cast to int in the sources)",
+        "shared copies: the reference-count machine (atomic increment; atomic decrement then free iff old value 1) is assumed to be what boost::shared_ptr does; compared with real Data objects via use_count / weak_ptr expiry after every operation (sequential scripts) and after joining 2..16 threads",
         "clang++ 14 -fsanitize=thread with libomp (thorough tier), one libomp-internal report per run is filtered by frames",
     ]
     ck.assumptions = ["regions run with T >= 1 threads; every iteration is executed exactly once by some thread (any OpenMP schedule kind)",
                       "one global lock: every SHARK_CRITICAL_REGION uses the same named critical section (OpenMP.h)",
-                      "nested parallelism disabled (OpenMP default), SHARK_THREAD_NUM < SHARK_NUM_THREADS"]
+                      "nested parallelism disabled (OpenMP default), SHARK_THREAD_NUM < SHARK_NUM_THREADS",
+                      "work split theorems: datasets with at least one batch (with 0 batches numThreads = min(threads,0) = 0 and the C++ divides by zero: outside the theorems, see notes.empty_dataset)",
+                      "shared copies: a shared_ptr instance is not destroyed while another thread copies from that same instance (the source dataset outlives the parallel region)"]
     ck.proofs()
     tmpd = os.path.join(BUILD, "tmp", PID); os.makedirs(tmpd, exist_ok=True)
 
@@ -275,8 +497,202 @@ def main():
         return exe_rt
     SCHEDS = [{"OMP_SCHEDULE": "dynamic,1"}, {"OMP_SCHEDULE": "static,1"}, {"OMP_SCHEDULE": "guided"}]
 
-    # ---------------------------------------------------------------- region obligations + search
     evals = 0
+    # ---------------------------------------------------------------- work split sites: translator, obligations, correspondence
+    gen = os.path.join(COQ, "gen")
+    splits = res.get("splits", [])
+    sp = T.coq_split(splits)
+    metas = sp["sites"]
+    ck.oblige("translator(split): every site in the supported form, all expressions translated", not (res.get("split_problems") or sp["problems"]),
+              "; ".join(res.get("split_problems", []) + sp["problems"])[:1500])
+    # every textual SHARK_NUM_THREADS / SHARK_THREAD_NUM of the anchored files must feed a translated site
+    uncovered = []
+    for f, lines in res.get("thread_uses", {}).items():
+        for ln in lines:
+            hit = False
+            for s in splits:
+                if s["file"] != f:
+                    continue
+                sf = s["sf"]
+                roots = [s[k] for k in ("bound", "lo", "hi", "cap", "outer_bound", "merge_bound") if s.get(k)] + \
+                        [("var", "", s[k]) for k in ("s_lo", "s_hi", "m_lo", "m_hi") if s.get(k)]
+                ids, _, _ = T.closure(sf, roots)
+                if any(sf.defs[i]["line"] == ln for i in ids):
+                    hit = True
+            if not hit:
+                uncovered.append("%s:%d" % (f, ln))
+    ck.oblige("translator(split): every use of SHARK_NUM_THREADS / SHARK_THREAD_NUM in the anchored files belongs to a translated site (%d uses, %d sites)" % (
+        sum(len(v) for v in res.get("thread_uses", {}).values()), len(splits)), not uncovered and bool(splits), "not covered: " + ", ".join(uncovered))
+    defs_text = "(* GENERATED by tools/c20.py (tools/translate_omp.py: coq_split) from %s on every run - do not edit *)\n" % REPO + sp["defs"]
+    open(os.path.join(gen, "C20SplitDefs.v"), "w").write(defs_text)
+    rc, out, err = coqc_gen("C20SplitDefs.v")
+    ck.oblige("coq/gen/C20SplitDefs.v (expressions of the current source as Gallina) compiles", rc == 0, (out + err)[-1500:])
+    defs_ok = rc == 0
+    proof = "Proof. split_solve. Qed."
+    def theorem(o, with_corollary=True):
+        return "Theorem %s :\n  %s.\n%s\n" % (o["name"], o["stmt"], proof) + (o.get("corollary", "") if with_corollary else "")
+    site_of = {m["index"]: m for m in metas}
+    failing = {}
+    split_items = []
+    if defs_ok:
+        body = ["(* GENERATED by tools/c20.py - obligations about the work split of the current source; proof script: C20SplitProofs.split_solve *)"] + SPLIT_HEADER
+        for o in sp["obligations"]:
+            m = site_of[o["site"]]
+            body.append("(* %s %s:%s *)" % (m["function"], m["file"], m["line"]))
+            body.append(theorem(o))
+        open(os.path.join(gen, "C20Split.v"), "w").write("\n".join(body))
+        rc, out, err = coqc_gen("C20Split.v")
+        if rc != 0:
+            # which ones fail: one scratch file per obligation
+            for o in sp["obligations"]:
+                r1, o1, e1 = coqc_text("C20Split_" + o["name"], "\n".join(SPLIT_HEADER) + theorem(o, False), tmpd, timeout=400)
+                if r1 != 0:
+                    failing[o["name"]] = (o1 + e1)[-400:]
+    for o in sp["obligations"] if defs_ok else []:
+        m = site_of[o["site"]]; site = splits[o["site"]]
+        title = "%s [%s %s:%s]" % (o["name"], m["function"], m["file"], m["line"])
+        if o["name"] not in failing:
+            ck.oblige(title, True, "proved by split_solve (Qed)")
+            split_items.append({"name": o["name"], "site": o["site"], "holds": True})
+            continue
+        ce = split_counterexample(site, o["kind"])
+        route = ROUTE_OF_FUNCTION.get(m["function"].split("<")[0])
+        what = "work-split obligation %s fails for %s %s:%s (%s)" % (o["name"], m["function"], m["file"], m["line"],
+               "; ".join("%s" % v for v in m.get("source", {}).values())[:400])
+        rp = {"obligation": o["name"], "statement": o["stmt"], "site": m, "coq": failing[o["name"]]}
+        item = {"name": o["name"], "site": o["site"], "holds": False, "counterexample": ce}
+        witness = None
+        if ce:
+            rp["counterexample(C semantics of the translated expressions)"] = {"inputs": ce["inputs"], "why": ce["why"]}
+            what += " | expressions evaluated on %s: %s" % (ce["inputs"], ce["why"])
+            line = None
+            if site["kind"] == "range":
+                line = split_line(m, ce["inputs"][site["total"][1]], ce["inputs"][T.NUM_THREADS_KEY])
+            elif "k" in ce:
+                line = slice_line(m, max(ce["k"], 1), max(ce["P"], 1), ce["T"])
+            if line and route:
+                cf = ck.write_replay("split_%s.txt" % o["name"], line + "\n")
+                r2, o2, e2 = run_lines(exe, [line], os.path.join(tmpd, "ce_in.txt"), args=("cases",), env={"OMP_DYNAMIC": "false"})
+                evals += 1
+                msgs = ["implementation crashed (rc=%s) %s" % (r2, e2.strip()[-200:])] if r2 != 0 or not o2 else cases_monitor([line], o2)
+                rp.update({"case_file": cf, "case": line, "implementation_output": o2, "monitor": msgs, "replay_cmd": "%s cases %s" % (exe, cf)})
+                if msgs:
+                    witness = msgs[0]
+        if witness is None and site["kind"] == "slice":
+            # the layout is consumed by the merge loop: look for a thread-count dependent result of getNeighbors
+            for sd in range(seed, seed + 3):
+                n_, probs = compare_threads(ck, exe, "snn", sd, 12, 0, threads=[1, 2, 3, 7, 16])
+                evals += n_
+                probs = [p_ for p_ in probs if p_.get("kind") != "tie-order"]
+                if probs:
+                    witness = json.dumps(probs[0])[:500]
+                    rp["replay_cmd"] = "OMP_NUM_THREADS=%s %s snn %d 12" % (probs[0]["threads"], exe, sd)
+                    rp["witness"] = probs[0]
+                    break
+        item["witness"] = witness
+        split_items.append(item)
+        ck.oblige(title, False, what[:600])
+        key = "split:%s:%s:%s" % (m["function"], m["line"], o["kind"])
+        if witness:
+            ck.violation(key, rp, what + " | observed on the real code: " + witness + " | replay: " + rp["replay_cmd"])
+        else:
+            ck.violation(key, rp, what + " | no-failing-input-found", no_input=True)
+    if failing and defs_ok:
+        # what the kernel accepts instead: the proved obligations, and the refutation of the others on the concrete input
+        body = ["(* GENERATED by tools/c20.py - obligations about the work split of the current source *)"] + SPLIT_HEADER
+        for o, it in zip(sp["obligations"], split_items):
+            m = site_of[o["site"]]; site = splits[o["site"]]
+            if it["holds"]:
+                body.append(theorem(o)); continue
+            body.append("(* obligation %s DOES NOT HOLD for %s %s:%s:\n   %s *)" % (o["name"], m["function"], m["file"], m["line"], o["stmt"].replace("*)", "* )")))
+            ce = it.get("counterexample")
+            if ce and o["kind"] in ("tiles", "slices"):
+                x = site_x(m, ce["inputs"])
+                if x is not None:
+                    fn, tb = ("site_tiles_b site_%d" % o["site"], "site") if site["kind"] == "range" else ("slice_tiles_b slice_%d" % o["site"], "slice")
+                    body.append("Theorem %s_refuted : %s [%s] = false. Proof. vm_compute. reflexivity. Qed.\n" % (o["name"], fn, "; ".join(map(str, x))))
+        open(os.path.join(gen, "C20Split.v"), "w").write("\n".join(body))
+        rc, out, err = coqc_gen("C20Split.v")
+        ck.oblige("coq/gen/C20Split.v (proved obligations + kernel-checked refutations of the failed ones) compiles", rc == 0, (out + err)[-800:])
+    elif defs_ok:
+        ck.oblige("coq/gen/C20Split.v (%d obligations of %d sites, script split_solve) compiles" % (len(sp["obligations"]), len(metas)), True, "")
+    ck.notes["split_sites"] = [{k: v for k, v in m.items() if k != "table_entry"} for m in metas]
+    ck.notes["split_obligations"] = [{"name": o["name"], "statement": re.sub(r"\s+", " ", o["stmt"])[:700]} for o in sp["obligations"]]
+    ck.notes["split_table(hand-kept)"] = T.SLICE_SITES
+
+    # probe (reported, not a check of C20): the split divides by numThreads = min(threads, batches)
+    if not ck.replay:
+        rce, oute, erre = sh([exe, "empty"], env={"OMP_NUM_THREADS": "4"}, timeout=60)
+        ck.notes["empty_dataset"] = {"cmd": "OMP_NUM_THREADS=4 %s empty" % exe, "rc": rce, "stdout": oute.strip()[:200],
+                                     "meaning": "ErrorFunction::eval on a dataset with 0 batches: rc=-8 is SIGFPE (numBatches/numThreads with numThreads = min(threads,0) = 0); "
+                                                "the work-split theorems assume >= 1 batch (obligation s<k>_safe proves the divisor non-zero under that assumption)"}
+
+    # correspondence of the extracted models with the real code
+    model = None
+    if defs_ok:
+        try:
+            import hashlib
+            hx = hashlib.sha256(sp["defs"].encode()).hexdigest()[:12]
+            model = extract_model(PID, "C20Extract.v", "c20_driver.ml", exe_name="c20_model_" + hx)
+        except Exception as ex:
+            ck.oblige("extracted model builds (coq/extract/C20Extract.v + ocaml/c20_driver.ml)", False, str(ex)[-800:])
+    if model and not ck.replay:
+        cases = []
+        nbs = [1, 2, 3, 4, 5, 7, 8, 11, 16, 17, 20, 31, 40] if not thorough else list(range(1, 49))
+        nts = [1, 2, 3, 4, 7, 16] if not thorough else [1, 2, 3, 4, 5, 6, 7, 8, 11, 16]
+        for m in metas:
+            if m.get("unsupported"):
+                continue
+            if m["kind"] == "range":
+                for nb in nbs:
+                    for nt in nts:
+                        l = split_line(m, nb, nt)
+                        if l:
+                            cases.append([l])
+            else:
+                for k in (1, 2, 3):
+                    for P in (1, 2, 5):
+                        for Tn in (1, 2, 3, 7, 16):
+                            l = slice_line(m, k, P, Tn)
+                            if l:
+                                cases.append([l])
+        n_split = len(cases)
+        routed = [m for m in metas if not m.get("unsupported") and ROUTE_OF_FUNCTION.get(m["function"].split("<")[0])]
+        ck.oblige("every translated site has a harness route and drivable inputs (%d of %d)" % (len(routed), len(metas)),
+                  len(routed) == len(metas) and n_split > 0, "")
+        cases += gen_rc_cases(ck.rng, 60 if not thorough else 400, 30 if not thorough else 200)
+        kf = lambda msg, case: "cases:%s:%s" % (case[0].split()[0] + ":" + (case[0].split()[2] if case[0].startswith(("split", "slice")) else ""), re.sub(r"\d+", "N", msg)[:80])
+        r = correspond(ck, cases, model, exe, cases_monitor, os.path.join(tmpd, "cases"), what="extracted models (generated split sites, reference counts) vs real code",
+                       impl_env={"OMP_DYNAMIC": "false"}, impl_args=("cases",), shrink=False, keyfn=kf)
+        evals += sum(len(c) for c in cases)
+        # the decision procedure tiles_b of the model agrees with the monitor's verdict on what the implementation did
+        tl = []
+        for m in metas:
+            if m.get("unsupported"):
+                continue
+            for (a, b) in ((3, 2), (7, 4), (16, 16), (5, 1)):
+                x = site_x(m, {m.get("total_input"): a, T.NUM_THREADS_KEY: b, "k": 2, "batchSize(patterns)": a})
+                if x is not None:
+                    tl.append("tilesb %d | %s" % (m["index"], " ".join(map(str, x))))
+        rcm, om, em = run_lines(model, tl, os.path.join(tmpd, "tilesb.txt"))
+        holds = {it["site"] for it in split_items if it["holds"] and it["name"].endswith(("_tiles", "_slices"))}
+        badv = [l for l, v in zip(tl, om) if (v == "true") != (int(l.split()[1]) in holds) and int(l.split()[1]) in holds]
+        ck.oblige("decision procedure tiles_b (extracted) accepts the generated sites whose obligation is proved (%d evaluations)" % len(tl), rcm == 0 and not badv, "; ".join(badv[:3]))
+        evals += len(tl)
+        ck.notes["cases"] = {"split+slice lines": n_split, "reference-count scripts": len(cases) - n_split,
+                             "disagreements": r["disagreements"], "monitor_failures": r["monitor_failures"]}
+        ck.cov["samples"] = ck.cov.get("samples", []) + [{"case": cases[0][0], "model": r["model_out"][0][0], "implementation": r["impl_out"][0][0]},
+                                                         {"case": cases[-1][0][:300], "model": r["model_out"][-1][0], "implementation": r["impl_out"][-1][0]}]
+    if model and ck.replay and ck.replay.endswith(".txt"):
+        lines = [l for l in open(ck.replay).read().split("\n") if l.strip()]
+        ra, xa, _ = run_lines(model, lines, os.path.join(tmpd, "r_model.txt"))
+        rb, xb, eb = run_lines(exe, lines, os.path.join(tmpd, "r_impl.txt"), args=("cases",), env={"OMP_DYNAMIC": "false"})
+        for l, a, b in zip(lines, xa, xb + [""] * len(lines)):
+            log("case   : " + l); log("  model: " + a); log("  impl : " + b); log("  monitor: " + str(cases_monitor([l], [b])))
+            if a != b or cases_monitor([l], [b]):
+                ck.violation("replay", {"case": l, "model_output": a, "implementation_output": b}, "replayed case still differs / violates the monitor: " + l)
+
+    # ---------------------------------------------------------------- region obligations + search
     region_list = []
     for nm, rec, variant, extra in items:
         ok = verdict.get(nm, False)
@@ -352,7 +768,7 @@ def main():
         unknown = [p for p in probs if not ck.match_known("%s:%s:%s" % ("schedule-dependent-tie-order" if p.get("kind") == "tie-order" else "monitor", mode, p.get("line_name") or ""))]
         ck.oblige("monitor %s: OMP_NUM_THREADS in %s agree with 1 thread (%s)%s" % (mode, THREADS, "exact" if tol == 0 else "1e-12",
                   "" if len(unknown) == len(probs) else " except known findings"), not unknown, "%d problems" % len(probs))
-    if ck.replay:
+    if ck.replay and not ck.replay.endswith(".txt"):
         # replay file = a violation json written earlier: re-run its command
         rp = json.load(open(ck.replay)); cmd = (rp.get("witness") or rp).get("replay_cmd")
         log("replay: " + str(cmd))
@@ -395,16 +811,31 @@ def main():
                 for r in keep[:1]:
                     ck.violation("tsan:%s:%s" % (mode, (re.search(r"shark::[\w:]+", r) or [""])[0] if re.search(r"shark::[\w:]+", r) else "harness"),
                                  {"mode": mode, "report": r, "replay_cmd": "OMP_NUM_THREADS=4 %s %s %d 2" % (texe, mode, seed)}, "ThreadSanitizer report: " + r[:400])
-        rc, out, err = sh(["coqchk", "-silent", "-o", "-Q", "theories", "SharkV", "-Q", "gen", "SharkGen", "SharkV.Properties_C20", "SharkGen.C20Regions"], cwd=COQ, timeout=1500)
-        ck.oblige("coqchk Properties_C20 + C20Regions", rc == 0, (out + err)[-600:])
+            cf = os.path.join(tmpd, "cases", "impl_in.txt")
+            if texe is not None and os.path.exists(cf):
+                # the correspondence cases (workers of the split sites, heap slices, concurrent dataset copies) under TSan
+                sub = [l for l in open(cf).read().split("\n") if l.startswith(("rcpar", "slice")) or (l.startswith("split") and l.split()[4] in ("3", "7"))]
+                cf2 = os.path.join(tmpd, "tsan_cases.txt"); open(cf2, "w").write("\n".join(sub) + "\n")
+                rc, out, err = sh([texe, "cases", cf2], env={"TSAN_OPTIONS": "halt_on_error=0 report_signal_unsafe=0 history_size=4"}, timeout=2400)
+                keep, total = tsan_reports(err)
+                evals += len(parse_out(out))
+                mon.append({"mode": "cases", "lines": len(sub), "tsan_reports_total": total, "tsan_reports_in_shark_or_harness": len(keep)})
+                ck.oblige("TSan cases (%d lines: split workers, heap slices, concurrent dataset copies): no report with a frame in shark::/remora::/harness (%d runtime-internal reports filtered)" % (len(sub), total - len(keep)),
+                          len(parse_out(out)) == len(sub) and not keep, keep[0][:600] if keep else "%d of %d lines" % (len(parse_out(out)), len(sub)))
+                for r_ in keep[:1]:
+                    ck.violation("tsan:cases", {"report": r_, "replay_cmd": "%s cases %s" % (texe, cf2)}, "ThreadSanitizer report: " + r_[:400])
+        rc, out, err = sh(["coqchk", "-silent", "-o", "-Q", "theories", "SharkV", "-Q", "gen", "SharkGen", "SharkV.Properties_C20", "SharkGen.C20Regions", "SharkGen.C20Split"], cwd=COQ, timeout=1500)
+        ck.oblige("coqchk Properties_C20 + C20Regions + C20Split", rc == 0, (out + err)[-600:])
 
     # ---------------------------------------------------------------- evidence
     ck.cov["evaluations"] = evals
-    ck.cov["distinct_nontrivial"] = len(regs)
+    ck.cov["distinct_nontrivial"] = len(regs) + len(splits)
     ck.cov["rule"] = ("obligations: one per SHARK_PARALLEL_FOR region of the anchored files (regenerated from the AST), + one `_stochastic` variant per region that "
                       "evaluates a model; evaluations = result lines of the harness compared against the single-threaded run over OMP_NUM_THREADS in %s "
-                      "(random integer-valued datasets n in 5..44, batch size 1..7; exact), transcendental routines at 1e-12; distinct_nontrivial = regions" % THREADS)
-    ck.cov["samples"] = [{"function": r["function"], "file": r["file"], "line": r["line"],
+                      "(random integer-valued datasets n in 5..44, batch size 1..7; exact), transcendental routines at 1e-12, + lines of the `cases` correspondence "
+                      "(split sites: batches 1..40 x threads 1..16 per site, compared exactly with the ranges of the generated Gallina; heap slices k 1..3 x patterns 1..5 x threads 1..16; "
+                      "reference-count scripts on real Data objects, sequential and 2..16 threads); distinct_nontrivial = regions + split sites" % THREADS)
+    ck.cov["samples"] = ck.cov.get("samples", []) + [{"function": r["function"], "file": r["file"], "line": r["line"],
                           "accesses": [(a["var"], a["idx"], a["rw"], a["crit"]) for a in r["accesses"]]} for r in regs[:2]]
     ck.notes["regions"] = region_list
     by_file = {}
@@ -424,8 +855,8 @@ def main():
         "notes": sorted(set(n for r in regs for n in r["notes"])),
     }
     ck.finish(level="proof",
-              checker_cmd="coqc (Coq 8.16.1) on Properties_C20.v and on coq/gen/C20Regions.v regenerated by tools/translate_omp.py (clang++ 14 -ast-dump=json); runtime monitors harness/c20_parallel.cpp",
-              explanation="proof, partial: checker soundness / merge order / work split are theorems; the region summaries are regenerated from source by a trusted translator; memory model and runtime only exercised by monitors")
+              checker_cmd="coqc (Coq 8.16.1) on Properties_C20.v and on coq/gen/C20Regions.v + coq/gen/C20Split.v regenerated by tools/translate_omp.py (clang++ 14 -ast-dump=json); extracted models (coq/extract/C20Extract.v, ocaml/c20_driver.ml) vs harness/c20_parallel.cpp `cases`; runtime monitors harness/c20_parallel.cpp",
+              explanation="proof, partial: checker soundness / merge order are theorems; the work split of the CURRENT source (ErrorFunction, NegativeLogLikelihood, SimpleNearestNeighbors heap slices) is translated from the AST and proved to tile on every run (generic script), the accumulated value = sequential sum as corollary; shared dataset copies: reference-count machine proved safe under every interleaving and executed against real Data objects; region summaries and expression trees come from a trusted translator; memory model and runtime only exercised by monitors")
 
 
 if __name__ == "__main__":
